@@ -2,6 +2,7 @@
 C01 — GraphPigeonholePrinciple(G, functional, onto) on an arbitrary bipartite graph object.
 -/
 import Lemmas.C01GraphInv
+import Lemmas.C01Complete
 import Lemmas.C01Pigeon
 import CnfgenModel.Fam.Php
 namespace Cnfgen.C01
@@ -191,5 +192,10 @@ theorem gphp_sat_iff_matching (B : BipG) (hg : GoodBip B) (f : Bool) :
     · intro _ u _ _ v _ v' _ e e'
       simp only [decide_eq_true_eq] at e e'
       exact e.trans e'.symm
+
+/-- `PigeonholePrinciple(m, n, …)` is `GraphPigeonholePrinciple(CompleteBipartiteGraph(m, n), …)`:
+the same variables, the same constraints in the same order -/
+theorem php_eq_gphp_complete (m n : Nat) (f o : Bool) :
+    phpF m n f o = gphp (BipG.complete m n) f o := Fam.phpF_eq_gphp_complete m n f o
 
 end Cnfgen.C01
